@@ -262,14 +262,24 @@ class BaseVersion(object):
 
     _re_hash_parts = re.compile(r"([^0-9]*)([0-9]*)")
 
+    @staticmethod
+    def _number_key(digits):
+        # type: (Optional[str]) -> Tuple[int, str]
+        """Key that orders digit strings by their numeric value.
+
+        Unlike int() it puts no limit on the number of digits.
+        """
+        stripped = (digits or "").lstrip("0")
+        return (len(stripped), stripped)
+
     @classmethod
     def _hash_key_part(cls, part):
-        # type: (Optional[str]) -> Tuple[Tuple[str, int], ...]
+        # type: (Optional[str]) -> Tuple[Tuple[str, Tuple[int, str]], ...]
         # Versions that compare equal can differ in leading zeros of the
         # numbers and in absent parts (which count as empty or zero).
-        pairs = [(nondigits, int(digits or "0"))
+        pairs = [(nondigits, cls._number_key(digits))
                  for nondigits, digits in cls._re_hash_parts.findall(part or "")]
-        while pairs and pairs[-1] == ("", 0):
+        while pairs and pairs[-1] == ("", (0, "")):
             pairs.pop()
         return tuple(pairs)
 
@@ -277,7 +287,7 @@ class BaseVersion(object):
         # type: () -> int
         # Must agree with __eq__: equal versions have equal hashes even if
         # they are spelled differently (e.g. "1.0", "1.00" and "0:1.0-0").
-        return hash((int(self.epoch or "0"),
+        return hash((self._number_key(self.epoch),
                      self._hash_key_part(self.upstream_version),
                      self._hash_key_part(self.debian_revision)))
 
@@ -325,8 +335,8 @@ class NativeVersion(BaseVersion):
                 raise ValueError("Couldn't convert %r to BaseVersion: %s"
                                  % (other, e))
 
-        lepoch = int(self.epoch or "0")
-        repoch = int(other.epoch or "0")
+        lepoch = self._number_key(self.epoch)
+        repoch = self._number_key(other.epoch)
         if lepoch < repoch:
             return -1
         if lepoch > repoch:
@@ -381,8 +391,8 @@ class NativeVersion(BaseVersion):
             if lb:
                 b = lb.pop(0)
             if cls.re_digits.match(a) and cls.re_digits.match(b):
-                aval = int(a)
-                bval = int(b)
+                aval = cls._number_key(a)
+                bval = cls._number_key(b)
                 if aval < bval:
                     return -1
                 if aval > bval:
